@@ -263,7 +263,7 @@ func init() {
 	parserJudges["C11"] = func(pc *parserCase, verbose bool) []string { m, _ := c11Judge(pc, verbose); return m }
 	register(&Check{
 		ID:        "C11",
-		QuickSecs: 300, ThoroSecs: 1500,
+		QuickSecs: 900, ThoroSecs: 1500,
 		Rule: "input-space exploration: two trees with required options at the root, on a command and two levels down (inherited), with and without custom message, one bound to an environment variable; every argv of length <= L over 19 tokens (each required option by name, alias, abbreviation; command names; help option, its abbreviation and alias; help command; topics; positional) x 3 modes x environment {unset, set}, plus a tree with k in {1,2,3,5} required root options supplied through the environment and three sibling commands with a required option each; " +
 			"Parse / Dispatch errors (errors.Is ErrorParsing, custom text), Writer contents (help text of the right level) and instrumented CommandFns compared with the reference model; every argv of length <= 3 that supplies all required options is also given to a program object that already served one of 6 earlier rounds and must again run its function without a required-option error; distinct_nontrivial = distinct in-domain cases",
 		Assume: []string{"other trees and argv longer than L are not covered"},
@@ -273,7 +273,7 @@ func init() {
 				depth = 5
 			}
 			alpha := []string{"--rreq=1", "--r1=1", "--rr=1", "--creq=1", "--cr=1", "--cq2", "--copt", "--copt=1", "--ereq=1", "--er=1", "c", "e", "n", "help", "--help", "--he", "--?", "zzz", "--v"}
-			ext := []string{"w", "--wo", "p", "--preq=1"} // an UnsetOptions wrapper command; a command whose required option got a value through SetValue
+			ext := []string{"w", "--wo", "p", "--preq=1", "-z?", "-zv"} // an UnsetOptions wrapper command; a command whose required option got a value through SetValue; bundles that start with an unknown letter
 			var defs []*ph.Def
 			envOf := map[*ph.Def]map[string]string{}
 			for mode := 0; mode < 3; mode++ {
@@ -284,6 +284,14 @@ func init() {
 						envOf[d] = env
 					}
 				}
+			}
+			// Bundling with unknown options passed through: a bundle that starts with an unknown letter still sets (or asks
+			// for help through) the known letters behind it
+			for _, mk := range []func(int) *ph.Def{defC11, defC11b} {
+				d := mk(1)
+				d.Unknown = 2
+				defs = append(defs, d)
+				envOf[d] = nil
 			}
 			for _, k := range []int{1, 2, 3, 5} {
 				for _, creq := range []bool{false, true} {
